@@ -40,7 +40,17 @@ func (jenny validationMethods) generateForObject(buffer *strings.Builder, contex
 		}
 
 		if typeDef.IsRef() {
-			return context.ResolveRefs(typeDef).IsStruct()
+			resolved := context.ResolveRefs(typeDef)
+			if resolved.IsStruct() {
+				return true
+			}
+
+			// aliases of arrays and maps: their elements can hold constraints
+			if resolved.IsArray() || resolved.IsMap() {
+				return resolvesToConstraints(resolved)
+			}
+
+			return false
 		}
 
 		if typeDef.IsScalar() {
